@@ -54,8 +54,10 @@ Print Assumptions C17_shuffle_is_permutation.
    recipe of the modelled language — templates with count / for_each, any number of other call
    sites, nested objects and friends to any depth, any number of iterations, any oracle — under two
    conditions: the call site occurs once in the recipe text (occ_list <= 1: call sites are distinct
-   objects), and it does not lie inside or below a for_each template (plain_list; that placement is
-   refuted below).  Then the records it hands out, read off the written rows in order (trace), are
+   objects) and that occurrence has the arguments named in the theorem (plain_list).  The site may
+   lie inside or below for_each templates (before the repair of ForEachVariableDefinition.evaluate
+   that placement was refuted; see the regression examples at the end).
+   Then the records it hands out, read off the written rows in order (trace), are
    record 0, 1, .., n-1, 0, 1, ..: the j-th is record j mod n.  Holds for the rows written before an
    error as well (e is unconstrained). *)
 Theorem C17_placement_mod_n :
@@ -192,30 +194,34 @@ Theorem C17_empty_dataset_error :
 Proof. exact empty_dataset_error. Qed.
 Print Assumptions C17_empty_dataset_error.
 
-(* ---- refutation for one placement (KNOWN_FINDINGS call-site-below-for_each) ----
-   Full statement that does NOT hold:  for every placement of the consuming template, the k-th
-   consuming row receives record k mod n.
-   What the code does when the consuming field is evaluated inside or below a for_each template
-   (recalculate_every_time = True): every evaluation builds a new iterator, so every row gets the
-   first record, and `repeat: False` never raises. *)
-Theorem C17_refuted_below_for_each_general :
-  forall (R C : Type) sid (x : R) (r : list R) rp (s : st R C),
-    site_draw R C true sid (mkDs (x :: r) Linear rp) s = ROk R C R x s.
-Proof. exact site_draw_recalc_linear. Qed.
-Print Assumptions C17_refuted_below_for_each_general.
-
+(* ---- regression for the repaired finding "Dataset.iterate/shuffle below a for_each restarted at
+   every evaluation" (KNOWN_FINDINGS, fixed).  Formerly C17_refuted_below_for_each: the friend T1
+   below the for_each template T2 received record 10 twice and `repeat: False` never raised.
+   Now the call site keeps its iterator: 10, then 20, and a third request is an error. *)
 Definition below_for_each_witness : tmpls Z :=
   TCons (Tmpl 2%nat (LForEach (mkDs [1; 2] Linear true)) [] [] TNil
               (TCons (Tmpl 1%nat (LCount 1%nat) [(1%nat, mkDs [10; 20] Linear false)] [] TNil TNil) TNil))
         TNil.
 
-Theorem C17_refuted_below_for_each :
+Example C17_ex_below_for_each_repaired :
   exists rows,
     run_recipe Z Z (fun _ _ => None) 1%nat below_for_each_witness [] = (rows, None) /\
     map (r_cons Z Z) (filter (fun r => Nat.eqb (r_tid r) 1%nat) rows)
-    = [[(1%nat, 10)]; [(1%nat, 10)]].
+    = [[(1%nat, 10)]; [(1%nat, 20)]].
 Proof. eexists. split; vm_compute; reflexivity. Qed.
-Print Assumptions C17_refuted_below_for_each.
+
+Example C17_ex_below_for_each_overrun :
+  exists rows e,
+    run_recipe Z Z (fun _ _ => None) 2%nat below_for_each_witness [] = (rows, Some (DGE e)) /\
+    map (r_cons Z Z) (filter (fun r => Nat.eqb (r_tid r) 1%nat) rows)
+    = [[(1%nat, 10)]; [(1%nat, 20)]].
+Proof. eexists. eexists. split; vm_compute; reflexivity. Qed.
+
+(* the witness satisfies the hypotheses of C17_placement_no_reuse: the theorem covers it *)
+Example C17_ex_below_for_each_hyps :
+  (occ_list Z 1%nat below_for_each_witness <= 1)%nat /\
+  plain_list Z 1%nat (mkDs [10; 20] Linear false) false below_for_each_witness.
+Proof. vm_compute. intuition (try discriminate; auto). Qed.
 
 (* ---- non-vacuity: concrete runs ---- *)
 Example C17_ex_iterate_wraps :
